@@ -46,6 +46,13 @@ def cases(draw, max_n=40):
         if where == "t" and (case["time_input"] != "float" or not case["clean"]):
             where = "rv"
         case["bad"]["%s:%d" % (where, i)] = draw(st.sampled_from(["nan", "inf", "-inf"]))
+    if case["time_input"] == "float" and case["clean"] and n >= 3 and draw(st.integers(0, 5)) == 0:
+        # ascending blocks in descending order, separated by rows whose time is nan (every step back in time happens next to
+        # a nan: to a comparison-based "is it sorted?" test the column looks sorted)
+        srt = sorted(t)
+        k = draw(st.integers(0, n - 3))
+        case["t"] = srt[k + 2:] + [srt[k + 1]] + srt[:k + 1]
+        case["bad"] = {"t:%d" % (n - k - 2): "nan"}
     if case["cov"] and case["err_scale"] < 1e-100:
         case["err_scale"] = 1.0       # (a covariance of squared 1e-170 values is the zero matrix: not invertible, not valid input)
     if case["cov"]:
